@@ -18,6 +18,16 @@ OPEN = [
      "what": "mapping set_default(m, k, v) does not evaluate v when k is present, so an error (or an effect) in v is dropped: `mapping<int>().set(1, 2).set_default(1, error(\"e\"))` is the mapping, not the error; the book does not list set_default among the short-circuit functions",
      "example": "let r0 = mapping<int>().set(1, 2).set_default(1, error(\"E0\"));",
      "why_not_fixed": "the shipped test script 351 asserts exactly this behaviour (m.set_default(10, error(\"\")) == m), so evaluating v first breaks the unedited suite; the disagreement is between book and tests"},
+    {"id": "K-C01-01", "property": "C01", "status": "open",
+     "sig": r"^panic\|(near_miss|generated|mutant|corpus)\|(instantiate|call)\|runtime_scope\.rs:ran out of scope parents at runtime\|program_declares_forward_fn$",
+     "what": "a closure that refers to a forward-declared sibling function and escapes the call that created it panics when called later ('ran out of scope parents at runtime', src/runtime_scope.rs:476): the forward reference is compiled into a PendingCapture that is resolved by walking the *dynamic* scope chain at call time, and the defining frame no longer exists",
+     "example": "fn outer()->()->(int){ forward fn b()->int; fn a()->int{ b() } fn b()->int{ 5 } a }\nlet r = outer()();",
+     "why_not_fixed": "the repair needs the template cells of already created closures to be patched when the forward declaration is fulfilled (templates are immutable Rc's shared with live closures): a redesign of PendingCapture, not a local patch"},
+    {"id": "K-C01-02", "property": "C01", "status": "open",
+     "sig": r"^panic\|.*\|statrs/(beta|gamma)\.rs:called `Result::unwrap\(\.\.\)$",
+     "what": "cdf / quantile of the continuous distributions hand extreme arguments straight to statrs 0.16, whose special functions (function/beta.rs, function/gamma.rs) unwrap a domain check: e.g. fisher_snedecor_distribution(6.0, 4.0).cdf(1e308) or quantile(students_t_distribution(1.0000000000000002, 1e308), 2.2e-308) panic inside the dependency",
+     "example": "let d = fisher_snedecor_distribution(6.0, 4.0);\nlet r = d.cdf(1e308);",
+     "why_not_fixed": "the domain of every statrs special function would have to be re-validated in each of the ~40 distribution wrappers (or the dependency upgraded to a release that returns errors): not a minimal patch"},
     {"id": "K-C02-01", "property": "C02", "status": "open",
      "sig": r"^grammar:lt_gt_in_argument_list\|rejected$",
      "what": "`f(a < b, c > d)`: a bare name followed by `<` inside an argument / element list is parsed as a generic specialisation `a<b, c>` and the program is rejected with a syntax error (e.g. `if(x < y, y > 0, true)`); writing `(x < y)` works",
